@@ -40,6 +40,7 @@ type wStepObs struct {
 }
 
 var bigZeros = make([]byte, 65537)
+var scratchB1 = make([]byte, 65537)
 
 type wRun struct {
 	sinks []*schedSink
@@ -75,11 +76,20 @@ func execWriter(hist []int, pre []lz4.Option) (*wRun, *verifsched.Execution) {
 				case "apply-legacy":
 					o.err = w.Apply(lz4.LegacyOption(true))
 				case "write7":
-					n, err := w.Write([]byte("abcdefg"))
+					// the caller reuses its buffer as soon as Write has returned
+					buf := []byte("abcdefg")
+					n, err := w.Write(buf)
 					o.n, o.err = int64(n), err
+					for i := range buf {
+						buf[i] = '#'
+					}
 				case "writeB1":
-					n, err := w.Write(bigZeros)
+					copy(scratchB1, bigZeros)
+					n, err := w.Write(scratchB1)
 					o.n, o.err = int64(n), err
+					for i := 0; i < len(scratchB1); i += 97 {
+						scratchB1[i] = '#'
+					}
 				case "write-nil":
 					n, err := w.Write(nil)
 					o.n, o.err = int64(n), err
